@@ -233,6 +233,10 @@ def run_tie(ck, tf, n_hist, profile, configs=CONFIGS, corpus=(), kwargs_for=None
                 stats=dict(op_kinds=dict(kinds), error_kinds=dict(errs), db_sizes=dict(sizes)))
 
 
+READ_OPS = {"search", "count", "contains", "get", "select", "all", "get_measurements", "get_tag_keys", "get_tag_values", "get_field_keys",
+            "get_field_values", "get_timestamps"}
+
+
 def direct_oracle(cases):
     """the documented meaning (pyspec) against the implementation's outputs, step by step, on every history;
     where the spec is silent (a user callable raised, invalid arguments) the walk resynchronises on the next
@@ -246,13 +250,19 @@ def direct_oracle(cases):
                     db = [dict(p) for p in x[1]]
                 continue
             if o[0] == "index_valid":
+                # "any read leaves it valid": with auto_index on, right after a read that goes through the database's read path
+                if auto and k > 0 and x == ("bool", False) and ops[k - 1][0] in READ_OPS and outs[k - 1][0] != "raise":
+                    bad.append((ci, k, ("bool", True)))
                 continue
             try:
                 db2, want = pyspec.step(db, o)
             except Exception:          # pyspec.Undefined (the meaning is silent: a user callable raised, invalid arguments) or an oracle limitation
-                if _kind(o)[0] in WRITE_KINDS:
+                kind = _kind(o)[0]
+                if kind in WRITE_KINDS and not (x[0] == "raise" and kind != "insert"):
                     db = None          # what the write did is unknown: resynchronise at the next iteration output
-                continue               # a read leaves the contents alone: keep judging the following steps
+                # a read leaves the contents alone; so does a removal / update that RAISED (C11: the contents are what they were before the
+                # call) - keep the state and keep judging the following steps
+                continue
             checked += 1
             if not pyspec.same(want, x):
                 bad.append((ci, k, want))
